@@ -451,3 +451,44 @@ Qed.
 Print Assumptions refuted_check_then_act.
 
 (* with the atomic non-blocking hand-back there is no such state: release_never_blocks above *)
+
+(* ================================================================================================ *)
+(* installing the limit (Limiter.fstep) *)
+Lemma frun_fills max tr : forall j tok todo, tok + j <= max -> j <= todo ->
+  frun max tr (tok, todo) (repeat FFill j) = Some (tok + j, todo - j).
+Proof.
+  induction j as [|j IH]; intros tok todo H1 H2; simpl.
+  - rewrite Nat.add_0_r, Nat.sub_0_r. reflexivity.
+  - destruct todo as [|todo]; [lia|]. destruct (Nat.ltb_spec tok max) as [L|L]; [|lia].
+    rewrite (IH (S tok) todo) by lia. f_equal. f_equal; lia.
+Qed.
+
+(* with the ticker already running: one tick during the fill, and the last send blocks for ever (no label is enabled, and
+   nothing can take a permit: the limit has not been returned to the caller yet) - for EVERY max >= 1 *)
+Theorem refuted_fill_after_ticker max : 1 <= max ->
+  frun max true (0, max) (FTick :: repeat FFill (max - 1)) = Some (max, 1) /\
+  forall l, fstep max true (max, 1) l = None.
+Proof.
+  intros H. split.
+  - simpl. destruct (Nat.ltb_spec 0 max) as [L|L]; [|lia]. rewrite (frun_fills max true (max - 1) 1 max) by lia.
+    f_equal. f_equal; lia.
+  - intros [|]; simpl; rewrite Nat.ltb_irrefl; reflexivity.
+Qed.
+
+(* the repaired order - all permits first, the ticker afterwards: the fill completes with exactly max permits *)
+Theorem fill_before_ticker max : frun max false (0, max) (repeat FFill max) = Some (max, 0) /\
+  forall ls c, frun max false (0, max) ls = Some c -> fst c + snd c = max.
+Proof.
+  split.
+  - rewrite (frun_fills max false max 0 max) by lia. f_equal. f_equal; lia.
+  - assert (G : forall ls c0 c, fst c0 + snd c0 = max -> frun max false c0 ls = Some c -> fst c + snd c = max).
+    { induction ls as [|l ls IH]; intros [tok todo] c Hc Hr; simpl in Hr.
+      - injection Hr as E. rewrite <- E. exact Hc.
+      - destruct l; simpl in Hr.
+        + destruct todo as [|todo]; [discriminate|]. destruct (tok <? max); [|discriminate].
+          apply (IH (S tok, todo) c); [simpl in *; lia|exact Hr].
+        + discriminate. }
+    intros ls c Hr. apply (G ls (0, max) c); [simpl; lia|exact Hr].
+Qed.
+Print Assumptions refuted_fill_after_ticker.
+Print Assumptions fill_before_ticker.
